@@ -107,9 +107,15 @@ func c17Run(r *core.Run) {
 		q := c17Draw(t, bigLog)
 		tsm.Ops = nil
 		tsm.Fired = false
-		tsm.FailAt = 0
+		tsm.FailAt, tsm.FailKind = 0, ""
 		if faulty && t.Chance(1, 2) {
 			tsm.FailAt = tsm.CallsSoFar() + 1 + t.Draw(6)
+			if t.Chance(1, 3) {
+				// a persistent fault: every call of one kind fails from now on (for this request)
+				tsm.FailKind = []string{"readdir", "read", "write", "mkdir"}[t.Draw(4)]
+				tsm.FailAt = tsm.CallsSoFar() + 1
+				r.Probe("persistent_io_fault")
+			}
 		}
 		before := map[int][48]byte{}
 		for k, v := range tsm.Reg {
@@ -286,6 +292,6 @@ func init() {
 			return 900
 		},
 		Run:       c17Run,
-		MustProbe: []string{"invalid_request", "entry_created", "entry_reused", "io_fault_fired", "preexisting_entry_same_index", "preexisting_entry_unreadable_index"},
+		MustProbe: []string{"invalid_request", "entry_created", "entry_reused", "io_fault_fired", "persistent_io_fault", "preexisting_entry_same_index", "preexisting_entry_unreadable_index"},
 	})
 }
